@@ -490,6 +490,28 @@ MaskInspectT(S, h) ==
             mask |-> m]))
 
 (***************************************************************************)
+(* Serialisation: encode then decode.  The wire value is abstract: the     *)
+(* decoded tensor is a fresh tensor with the element type, shape and       *)
+(* logical elements of the source (and its mask where the format carries   *)
+(* one: gob; npy and csv write the fill value at masked positions;         *)
+(* protobuf and flatbuffers have no mask field).  A format may refuse a    *)
+(* tensor it cannot express.                                               *)
+(***************************************************************************)
+CarriesMask(fmt) == fmt = "gob"
+WritesFill(fmt) == fmt \in {"npy", "csv"}      \* documented: masked values are replaced by the fill value
+RoundTripT(S, h, fmt) ==
+    LET t == S.live[h]
+        m == MaskOf(S, t)
+        masked == IsMaskedT(S, t)
+        vals == [k \in 1..Len(t.cells) |->
+                   IF masked /\ WritesFill(fmt) /\ m[k] = MT THEN <<"fill">> ELSE S.heap[t.cells[k]]]
+        shp == IF fmt = "csv" /\ Len(t.shape) # 2 THEN <<1, 1>> ELSE t.shape
+        o == FreshResult(S, shp, "C", vals, "")
+        S1 == IF masked /\ CarriesMask(fmt) THEN SetMaskAll(o.S, Len(o.S.allocs), m) ELSE o.S
+    IN IF fmt = "csv" /\ Len(t.shape) # 2 THEN Free(S)
+       ELSE Out(S1, [o.res EXCEPT !.ref = TRUE])
+
+(***************************************************************************)
 (* Reductions.  axes: a sequence of distinct 0-based axes in any order.    *)
 (* The value at an outer position is the left fold of the fibre's elements *)
 (* in logical order; all axes (or none listed) reduce to a scalar.         *)
@@ -699,6 +721,7 @@ Apply(S, op) ==
       [] op.k = "ResetMask"   -> ResetMaskT(S, op.h)
       [] op.k = "Filled"      -> FilledT(S, op.h, IF op.a[1] = 0 THEN <<"fill">> ELSE K(op.a[1]))
       [] op.k = "MaskInspect" -> MaskInspectT(S, op.h)
+      [] op.k = "RoundTrip"   -> RoundTripT(S, op.h, op.a[1])
       [] op.k = "Reduce"      -> ReduceT(S, op.h, op.a[1], op.a[2])
       [] op.k = "Arg"         -> ArgT(S, op.h, op.a[1], op.a[2])
       [] op.k = "Product"     -> ProductT(S, op.a[1], op.h, op.a[2], op.a[3], op.a[4], op.a[5], op.a[6])
